@@ -2,8 +2,10 @@ SPECIFICATION SpecUnfairAnswer
 CONSTANTS
   CID = {"c1"}
   EXCH = {"x1"}
+  TRADED = {"x1"}
   MaxSends = 2
   MaxKills = 0
+  MaxMkt = 0
 INVARIANTS TypeOK AtMostOnce InFlightBacked
 PROPERTY Resolved
 CHECK_DEADLOCK FALSE
